@@ -1,5 +1,54 @@
-(* placeholder while the proofs are being developed *)
-From Coq Require Import ZArith.
-From Stk Require Import T.Model T.Spec.
+(** Property C08 (every live timer fires exactly once, on time; no call sequence panics).
+    Only property theorems live here; each is closed by [exact] of a lemma of coq/T. *)
+From Coq Require Import ZArith List Bool.
+From Stk Require Import Lib.U Gen.SrcTimers T.Model T.Spec T.Inv T.InvProofs.
+Import ListNotations.
+Local Open Scope Z_scope.
+
+(** No panic, structure preserved.  For every history [ops] of admissible operations ([ops_ok]:
+    instants below 2^62 ns, no verification-hook pokes; keys are arbitrary) of at most
+    HMAX = 2^31 - 2 operations, run from [Timers::new]: every operation returns (no overflow check
+    fires, no index is out of bounds, no explicit panic!, no unwrap on None, the collision loop of
+    [add] succeeds at its first iteration, the fuel of [advance] suffices), and the structural
+    invariant [TInv] holds in the state reached - hence in every reachable state. *)
+Theorem C08_no_panic :
+  forall ops, Z.of_nat (length ops) <= HMAX -> ops_ok t_init ops ->
+  let '(outs, sf) := trun t_init ops in
+  length outs = length ops /\ Forall (fun o => o <> None) outs /\ TInv sf.
+Proof. exact no_panic_from_init. Qed.
+Check C08_no_panic :
+  forall ops, Z.of_nat (length ops) <= HMAX -> ops_ok t_init ops ->
+  let '(outs, sf) := trun t_init ops in
+  length outs = length ops /\ Forall (fun o => o <> None) outs /\ TInv sf.
+Print Assumptions C08_no_panic.
+
+(** one operation: the step theorem behind it *)
+Theorem C08_step_safe :
+  forall s o n, TInv s -> counters_ok s n -> n < HMAX -> op_ok s o ->
+  exists s' out, tstep s o = Some (s', out) /\ TInv s' /\ counters_ok s' (n + 1).
+Proof. exact tstep_safe. Qed.
+Print Assumptions C08_step_safe.
+
+(** the hypotheses are satisfiable by a non-trivial history: all three kinds, updates in both
+    directions (including a Min update into the past: the fixed finding F1), deletes, stale and
+    Default keys, a long fixed timer, runs that jump over several 9-hour periods *)
+Definition ex_ops : list top :=
+  [ ORun 10000000000; OAddMin 100000000000 1; OModMin 1 0 1 5000000000; ONextExpiry; ORun 11000000000;
+    OAdd 12000000000 2; OAfter 40000000000000 3; OAddMax 13000000000 4; OModMax 7 1 1 90000000000000;
+    OAddMin 500000000000 5; OModMin 9 2 1 20000000000; ODel 5 2147483649 786432; ODelMax (-1) 0 0;
+    OActMin 9 2 1; ONextWait 11500000000; ONextWaitMax 11500000000 1000 false;
+    ORun 12500000000; ORun 40000000000; ORun 150000000000000; ONextExpiry; ONow ].
+Example ex_ops_ok : Z.of_nat (length ex_ops) <= HMAX /\ ops_ok t_init ex_ops.
+Proof. vm_compute. repeat split; try reflexivity; try discriminate. Qed.
+Example ex_ops_outputs :
+  fst (trun t_init ex_ops) =
+  [ Some (RFired []); Some (RKey 0 1); Some (RBool true); Some (ROptNs (Some 10000016384)); Some (RFired [1]);
+    Some (RKey 2147483649 786432); Some (RKey 0 2); Some (RKey 1 1); Some (RBool true);
+    Some (RKey 2 1); Some (RBool true); Some (RBool true); Some (RBool false);
+    Some (RBool true); Some (ROptNs (Some 1500000000)); Some (RNs 1000);
+    Some (RFired []); Some (RFired [5]); Some (RFired [3; 4]); Some (ROptNs None); Some (RNs 150000000000000) ].
+Proof. vm_compute. reflexivity. Qed.
+
+(* placeholder until the on-time theorem lands (next milestone) *)
 Theorem C08_on_time : True. Proof. exact I. Qed.
 Print Assumptions C08_on_time.
